@@ -1,10 +1,16 @@
 """C19  Output files always match the current data and nothing unchanged is redone.
 
 spec/OutputRef.tla      the statement as predicates (Current, RegeneratedPdf/Png, ChangedFlag, Nothing)
+spec/OutputSem.tla      the elements as functions and one plot through the whole chain in closed form (RunPlot), for the
+                        documented Write and for the pinned one (a created file leaves output.changed alone)
 spec/Output.tla         the chain Write - Write - LaTeXToPDF - PDFToPNG with output.changed over histories
-                        of runs (changed data / template, deleted files, Write and converter options)
-spec/Trace_Output.tla   runs recorded from the real chain, judged by the predicates of OutputRef
-spec/MakeFilename.tla   naming rules of MakeFilename on chains of elements
+                        of runs (changed data / template, deleted files, Write and converter options); SemOK: the
+                        interleaved actions = RunPlot; LaTeXByTime: output.changed absent, modification times decide
+spec/Trace_Output.tla   runs recorded from the real chain, judged by the predicates of OutputRef; for every failed
+                        predicate: does the pinned design (RunPlot) fail it too from the same state ("design") or
+                        not ("other": not the known finding), and where the run first departs from that design
+spec/MakeFilename.tla   naming rules of MakeFilename on chains of elements; incoming values with names / affixes that
+                        are absent, texts, or present but EMPTY strings
 lenaverif/outlib.py     scratch workspace, stub converters, audit of writes, replay, sharded validation
 """
 import random
@@ -24,6 +30,7 @@ ARGS = (("filename", "fn", "f"), ("dirname", "dn", "d"), ("fileext", "fe", "e"),
 
 
 SVAL = "STATIC"
+INCOMING = {"filename": "F0", "dirname": "D0", "fileext": "E0", "prefix": "P0", "suffix": "S0"}
 
 
 def _render(field):
@@ -36,8 +43,8 @@ def mf_key(rec):
     def name(el):
         return "".join(l for _, flag, l in ARGS if el[flag]) + ("!" if el["ow"] else "") + ("?" if el["nk"] else "")
     c0 = rec["c0"]
-    return "%s|var=%s,name=%d,affix=%s" % (">".join(name(el) for el in rec["chain"]),
-                                           c0["var"], c0["fn0"], c0["ax0"])
+    return "%s|var=%s,name=%s,dirext=%s,affix=%s" % (">".join(name(el) for el in rec["chain"]),
+                                                     c0["var"], c0["fn0"], c0["dx0"], c0["ax0"])
 
 
 def replay_makefilename(ctx, rec):
@@ -47,12 +54,12 @@ def replay_makefilename(ctx, rec):
     if c0["var"] in ("run", "both"):
         context["var"] = VAL
     out0 = {}
-    if c0["fn0"]:
-        out0["filename"] = "F0"
-    if c0["ax0"] == "some":
-        out0["prefix"], out0["suffix"] = "P0", "S0"
-    elif c0["ax0"] == "empty":      # affixes that are there but empty strings
-        out0["prefix"], out0["suffix"] = "", ""
+    # names and affixes the value comes with: "some" text, or keys that are there but hold EMPTY strings
+    # (dirname "" = top of the output directory, fileext "" = no extension: existing names like any other)
+    for kind, keys in ((c0["fn0"], ("filename",)), (c0["dx0"], ("dirname", "fileext")), (c0["ax0"], ("prefix", "suffix"))):
+        for key in keys:
+            if kind != "none":
+                out0[key] = INCOMING[key] if kind == "some" else ""
     if out0:
         context["output"] = out0
     val = ("data", context) if context else "data"
@@ -88,7 +95,9 @@ def report_makefilename(ctx, failures):
             by_shape.setdefault(mf_key(f).split("|")[0], []).append(f)
     for shape in sorted(by_shape)[:12]:
         fs = by_shape[shape]
-        f = min(fs, key=lambda x: (x["c0"]["var"], x["c0"]["fn0"], x["c0"]["ax0"]))
+        order = ("none", "some", "empty")
+        f = min(fs, key=lambda x: (order.index(x["c0"]["fn0"]), order.index(x["c0"]["dx0"]), order.index(x["c0"]["ax0"]),
+                                   x["c0"]["var"]))
         ctx.violation("MakeFilename:%s" % mf_key(f), dict(f, failing_contexts=len(fs), failing_scenarios=len(failures)))
 
 
@@ -167,6 +176,17 @@ def _binding_demo(ctx, d):
         else:                    # a converter launched in the third run although nothing changed
             o["launched"] = dict(o["launched"], png=True)
         recs.append(bad)
+    # the known finding and something else in the same run: csv deleted and data changed, the pinned Write re-creates
+    # the csv without output.changed -> stale pdf (verdicts the pinned DESIGN of OutputSem.tla fails as well: "design");
+    # with the recorded csv content corrupted too, Trace_Output must report Current_csv as NOT explained by that design
+    sc1 = {"srcs": [1], "obj": [False], "grouped": False}
+    with ws.activated():
+        runs1 = ol.run_history(ws, sc1, DEFAULT, [{}, {"del": [[1, "csv", 1]], "data": [[1, 1]]}])
+    recs.append({"sc": sc1, "set": DEFAULT, "runs": runs1})
+    bad = {"sc": sc1, "set": DEFAULT, "runs": [dict(r, obs=[dict(o) for o in r["obs"]]) for r in runs1]}
+    o = bad["runs"][1]["obs"][0]
+    o["files"] = dict(o["files"], csv=[dict(o["files"]["csv"][0], d=[1])])
+    recs.append(bad)
     verdicts, stats = ol.validate_shard(d, recs, "demo")
     ctx._account("trace", "Trace_Output", stats["cfg"], ol._Res(stats))
     if stats["exit"] != 0:
@@ -177,10 +197,23 @@ def _binding_demo(ctx, d):
     notes = []
     for k, (field, pred, where) in enumerate(plan, 1):
         got = verdicts.get(k, [])
-        if not got or min(j for j, _, _ in got) != where or pred not in [q for j, q, _ in got if j == where]:
+        if not got or min(v[0] for v in got) != where or (pred, "other") not in [(v[1], v[3]) for v in got if v[0] == where]:
             raise core.MachineryError("Trace_Output does not bind: corrupted %s in run %d, verdicts %r" % (field, where, got))
         notes.append("Trace_Output: run %d with %s corrupted -> %s reported for exactly that run; uncorrupted history accepted"
                      % (where, field, pred))
+    k0, k1 = len(plan) + 1, len(plan) + 2
+    if any(v[3] != "design" for v in verdicts.get(k0, [])):
+        notes.append("skipped: a history with the known finding alone has verdicts beyond the pinned design")
+    else:
+        got = verdicts.get(k1, [])
+        rec = dict(recs[k1], same_objects=False, gi=0)
+        key = ol.verdict_key(rec, got)[0] if got else None
+        if ("Current_csv", "other") not in [(v[1], v[3]) for v in got if v[0] == 1] or \
+                key != "Output:Current_csv:csv=created:csv-content":
+            raise core.MachineryError("Trace_Output does not tell a corrupted csv from the known finding: %r -> %r" % (got, key))
+        notes.append("Trace_Output: run 1 of [csv deleted + data changed] has %d verdict(s) that the pinned design of "
+                     "OutputSem.tla fails as well; with the csv content corrupted in addition -> Current_csv reported as "
+                     "not explained by that design, key %s" % (len(verdicts.get(k0, [])), key))
     ctx.extra.setdefault("binding_demo", []).extend(notes)
 
 
@@ -193,6 +226,12 @@ def run(ctx):
                "through its own write method (docstring of Write.run); a grouped pipeline is built anew for every run")
     # ---- design level (one TLC run explores a whole set of plans: pipelines with their own bounds)
     ctx.mc("Output", "Output_%s.cfg" % tag, coverage=True, must_cover=MUST)
+    # the pinned design (a created file leaves output.changed alone), explored in full: its interleaved actions equal
+    # the closed form RunPlot(FALSE, ..) of OutputSem.tla (SemOK) - the function by which Trace_Output.tla tells the
+    # known finding from every other failure; there output.changed does reach LaTeXToPDF absent (LaTeXByTime: the
+    # modification times decide) and the plot is then redone and up to date (AbsentFlagRedone, AbsentFlagCurrent)
+    ctx.mc("Output", "Output_pinned_sem%s.cfg" % ("_thorough" if ctx.thorough else ""), coverage=True,
+           must_cover=MUST + ("LaTeXByTime",))
     if ctx.thorough:
         ctx.mc("Output", "Output_thorough2.cfg")
         # the pinned Write (a created file leaves output.changed alone) and a reused RenderLaTeX that keeps the
@@ -205,6 +244,12 @@ def run(ctx):
         ctx.mc("MakeFilename", "MakeFilename_thorough.cfg", coverage=True, must_cover=("Step",))
     # ---- MakeFilename: the export run also checks the invariants and action properties of the model
     recs = ctx.export("MakeFilename", "MakeFilename_%s_export.cfg" % tag, min_records=1000)
+    if ctx.thorough:    # all 76 element kinds x the quick contexts; the small vocabulary x all 108 incoming contexts
+        recs += ctx.export("MakeFilename", "MakeFilename_thorough_export2.cfg", min_records=1000)
+    # (vacuity) names that exist but are empty strings do meet elements that would set them
+    for key, flag in (("fn0", "fn"), ("dx0", "dn"), ("dx0", "fe")):
+        if not any(r["c0"][key] == "empty" and any(el[flag] and not el["ow"] for el in r["chain"]) for r in recs):
+            raise core.MachineryError("MakeFilename export: no chain gives %s to a value whose %s is empty" % (flag, key))
     report_makefilename(ctx, [f for f in (replay_makefilename(ctx, rec) for rec in recs) if f])
     ctx.sample({"makefilename_behaviour": recs[len(recs) // 3]})
     ctx.extra["makefilename_scenarios"] = len(recs)
@@ -231,6 +276,9 @@ def run(ctx):
         rule="S2C: every history of the bounded Output model (touch subsets of bounded size before each of 2-3 runs, "
              "1-3 plots or groups of 2-3 sources, string / histogram / graph / write-method sources, Write / converter "
              "options, fresh and reused pipeline objects) replayed on the real plain or grouped chain with stub converters; "
-             "every MakeFilename chain of the model compared exactly; C2S: seeded random histories (<= 6 runs, <= 4 plots "
-             "or groups) - all runs judged by Trace_Output.tla; non-trivial = at least two runs / two elements",
+             "every MakeFilename chain of the model (incoming names and affixes absent / text / empty string) compared "
+             "exactly; C2S: seeded random histories (<= 6 runs, <= 4 plots or groups) - all runs judged by Trace_Output.tla, "
+             "which also evaluates the pinned design of OutputSem.tla (checked against the action model by TLC: SemOK) "
+             "from the state before every run: a failed predicate that design does not fail is never taken for the "
+             "known finding; non-trivial = at least two runs / two elements",
         exhaustive=True)
